@@ -404,6 +404,24 @@ def rename(case, rng):
     return case
 
 
+NEAR_TAGS = {"dsp": ["DSP", "Dsp", "dsp_", "dsp1", "ds", "_dsp", "dsp"], "BRAM": ["bram", "Bram", "BRAM_", "BRAM0", "BRAM"],
+             "r_1": ["R_1", "r__1", "r_11", "r1", "r_", "__", "_0", "r_1"]}
+
+
+def retag(case):
+    """specialised regions (and module rectangles) of one die tagged with names that differ only in letter case, by a trailing /
+    leading underscore or digit, or that are prefixes of each other or of the ground name (dsp / DSP / dsp_ / dsp1 / ds, __ / _0);
+    blockages stay blockages.  The choice is drawn from the case itself, not from the stream's generator."""
+    import random
+    r2 = random.Random("retag-" + repr(case["regions"]) + repr(case.get("W")))
+    regs = [r[:4] + [r2.choice(NEAR_TAGS[r[4]])] if len(r) > 4 and r[4] in NEAR_TAGS else r for r in case["regions"]]
+    mods = []
+    for m in case["modules"]:
+        rs = [list(r[:4]) + [r2.choice(NEAR_TAGS[r[4]])] if len(r) > 4 and r[4] in NEAR_TAGS else r for r in m["rects"]]
+        mods.append(dict(m, rects=rs))
+    return dict(case, regions=regs, modules=mods)
+
+
 def gen_tie(rng):
     """direct form: a fixed module whose share of a cell is EXACTLY the tolerance 1e-6 of _detect_fixed_rectangles
     (neither 'below' nor 'within the tolerance of 1': the assertion fails), just below it, and just above"""
@@ -512,7 +530,7 @@ def gen_extra(rng):
         if rng.random() < 0.4:
             case = rename(case, rng)
     elif kind == "names":
-        case = rename(case, rng)
+        case = retag(rename(case, rng))
     elif kind == "order":
         regs = list(case["regions"])
         how = rng.choice(["reversed", "shuffled", "top-down"])
@@ -1337,7 +1355,8 @@ def run(ctx, out, replay=None):
                 "the property (own rectangles overlapping, missing centre) for the reject clauses of the model; non-trivial = "
                 "two or more modules, a region, or a refined die; distinct by canonical hash.  Extra stream: the netlist / die handed "
                 "over as YAML text, as a file name, the die as '<W>x<H>', integral numbers as ints; module names that are prefixes "
-                "of each other or YAML-special (H1 / H1_0 / H1_io / M / M_ / yes / null / on ...), S1 .. S16; regions reversed / "
+                "of each other or YAML-special (H1 / H1_0 / H1_io / M / M_ / yes / null / on ...), S1 .. S16, with the regions of that die tagged by near-equal "
+                "names (dsp / DSP / dsp_ / dsp1 / ds, BRAM / bram, r_1 / r__1 / __ / _0); regions reversed / "
                 "shuffled / top-down, modules reversed, rectangles of a module shuffled; dies gridded into 9 .. 100 cells or split "
                 "into 9 .. 100 regions; 9 - 16 movable modules; a fixed module whose share of a cell is exactly the tolerance "
                 "1e-6, just below and just above it.  Coincidence stream (Geometry/RectCoincide.v): every combination of a shared "
